@@ -16,43 +16,43 @@ import (
 
 // wrapper (as written in server.go) -> text that must occur in the wrapper's body in entryHandlers.go
 var wrapperCallee = map[string]string{
-	"query/uploadLookupFileHandler":        "lookups.UploadLookupFile(ctx)",
-	"query/getAllLookupFilesHandler":       "lookups.GetAllLookupFiles(ctx)",
-	"query/getLookupFileHandler":           "lookups.GetLookupFile(ctx)",
-	"query/deleteLookupFileHandler":        "lookups.DeleteLookupFile(ctx)",
-	"query/esPostBulkHandler":              "eswriter.ProcessBulkRequest(ctx, orgId, false)",
-	"query/esPutIndexHandler":              "CallWithMyId(eswriter.ProcessPutIndex, ctx)",
-	"query/esDeleteIndexHandler":           "CallWithMyIdQuery(eswriter.ProcessDeleteIndex, ctx)",
-	"query/esGetIndexAliasExistsHandler":   "CallWithMyIdQuery(eswriter.ProcessIndexAliasExist, ctx)",
-	"query/esGetSearchHandler":             "CallWithMyIdQuery(esreader.ProcessSearchRequest, ctx)",
-	"query/esGetSingleDocHandler":          "CallWithMyId(esreader.ProcessSingleDocGetRequest, ctx)",
-	"query/esGetIndexAliasesHandler":       "CallWithMyId(eswriter.ProcessGetIndexAlias, ctx)",
-	"query/esGetAliasHandler":              "CallWithMyIdQuery(eswriter.ProcessGetAlias, ctx)",
-	"query/esPostAliasesHandler":           "CallWithMyIdQuery(eswriter.ProcessPostAliasesRequest, ctx)",
-	"query/esPutIndexAliasHandler":         "CallWithMyIdQuery(eswriter.ProcessPutAliasesRequest, ctx)",
-	"query/esGetAllAliasesHandler":         "CallWithMyIdQuery(eswriter.ProcessGetAllAliases, ctx)",
-	"query/pipeSearchHandler":              "CallWithMyIdQuery(pipesearch.ProcessPipeSearchRequest, ctx)",
-	"query/saveUserSavedQueriesHandler":    "CallWithMyIdQuery(usq.SaveUserQueries, ctx)",
-	"query/getUserSavedQueriesAllHandler":  "CallWithMyIdQuery(usq.GetUserSavedQueriesAll, ctx)",
-	"query/deleteUserSavedQueryHandler":    "CallWithMyIdQuery(usq.DeleteUserSavedQuery, ctx)",
-	"query/SearchUserSavedQueryHandler":    "CallWithMyIdQuery(usq.SearchUserSavedQuery, ctx)",
-	"query/createDashboardHandler":         "CallWithMyIdQuery(dashboards.ProcessCreateDashboardRequest, ctx)",
-	"query/updateDashboardHandler":         "CallWithMyIdQuery(dashboards.ProcessUpdateDashboardRequest, ctx)",
-	"query/getDashboardIdHandler":          "CallWithMyIdQuery(dashboards.ProcessGetDashboardRequest, ctx)",
-	"query/deleteDashboardHandler":         "CallWithMyIdQuery(dashboards.ProcessDeleteDashboardRequest, ctx)",
-	"query/favoriteDashboardHandler":       "CallWithMyIdQuery(dashboards.ProcessFavoriteRequest, ctx)",
-	"query/listAllDashboardsHandler":       "CallWithMyIdQuery(dashboards.ProcessListAllItemsRequest, ctx)",
-	"query/createFolderHandler":            "CallWithMyIdQuery(dashboards.ProcessCreateFolderRequest, ctx)",
-	"query/getFolderContentsHandler":       "CallWithMyIdQuery(dashboards.ProcessGetFolderContentsRequest, ctx)",
-	"query/updateFolderHandler":            "CallWithMyIdQuery(dashboards.ProcessUpdateFolderRequest, ctx)",
-	"query/deleteFolderHandler":            "CallWithMyIdQuery(dashboards.ProcessDeleteFolderRequest, ctx)",
-	"query/getFolderNestedCountHandler":    "CallWithMyIdQuery(dashboards.ProcessGetFolderNestedCountRequest, ctx)",
-	"ingest/esPostBulkHandler":             "eswriter.ProcessBulkRequest(ctx, 0, false)",
-	"ingest/EsPutIndexHandler":             "CallWithMyId(eswriter.ProcessPutIndex, ctx)",
-	"ingest/esPutPostSingleDocHandler":     "eswriter.ProcessPutPostSingleDocRequest(ctx, update, 0)",
-	"ingest/splunkHecIngestHandler":        "CallWithMyId(splunk.ProcessSplunkHecIngestRequest, ctx)",
-	"ingest/otsdbPutMetricsHandler":        "CallWithMyId(otsdbwriter.PutMetrics, ctx)",
-	"ingest/prometheusPutMetricsHandler":   "CallWithMyId(prometheuswriter.PutMetrics, ctx)",
+	"query/uploadLookupFileHandler":       "lookups.UploadLookupFile(ctx)",
+	"query/getAllLookupFilesHandler":      "lookups.GetAllLookupFiles(ctx)",
+	"query/getLookupFileHandler":          "lookups.GetLookupFile(ctx)",
+	"query/deleteLookupFileHandler":       "lookups.DeleteLookupFile(ctx)",
+	"query/esPostBulkHandler":             "eswriter.ProcessBulkRequest(ctx, orgId, false)",
+	"query/esPutIndexHandler":             "CallWithMyId(eswriter.ProcessPutIndex, ctx)",
+	"query/esDeleteIndexHandler":          "CallWithMyIdQuery(eswriter.ProcessDeleteIndex, ctx)",
+	"query/esGetIndexAliasExistsHandler":  "CallWithMyIdQuery(eswriter.ProcessIndexAliasExist, ctx)",
+	"query/esGetSearchHandler":            "CallWithMyIdQuery(esreader.ProcessSearchRequest, ctx)",
+	"query/esGetSingleDocHandler":         "CallWithMyId(esreader.ProcessSingleDocGetRequest, ctx)",
+	"query/esGetIndexAliasesHandler":      "CallWithMyId(eswriter.ProcessGetIndexAlias, ctx)",
+	"query/esGetAliasHandler":             "CallWithMyIdQuery(eswriter.ProcessGetAlias, ctx)",
+	"query/esPostAliasesHandler":          "CallWithMyIdQuery(eswriter.ProcessPostAliasesRequest, ctx)",
+	"query/esPutIndexAliasHandler":        "CallWithMyIdQuery(eswriter.ProcessPutAliasesRequest, ctx)",
+	"query/esGetAllAliasesHandler":        "CallWithMyIdQuery(eswriter.ProcessGetAllAliases, ctx)",
+	"query/pipeSearchHandler":             "CallWithMyIdQuery(pipesearch.ProcessPipeSearchRequest, ctx)",
+	"query/saveUserSavedQueriesHandler":   "CallWithMyIdQuery(usq.SaveUserQueries, ctx)",
+	"query/getUserSavedQueriesAllHandler": "CallWithMyIdQuery(usq.GetUserSavedQueriesAll, ctx)",
+	"query/deleteUserSavedQueryHandler":   "CallWithMyIdQuery(usq.DeleteUserSavedQuery, ctx)",
+	"query/SearchUserSavedQueryHandler":   "CallWithMyIdQuery(usq.SearchUserSavedQuery, ctx)",
+	"query/createDashboardHandler":        "CallWithMyIdQuery(dashboards.ProcessCreateDashboardRequest, ctx)",
+	"query/updateDashboardHandler":        "CallWithMyIdQuery(dashboards.ProcessUpdateDashboardRequest, ctx)",
+	"query/getDashboardIdHandler":         "CallWithMyIdQuery(dashboards.ProcessGetDashboardRequest, ctx)",
+	"query/deleteDashboardHandler":        "CallWithMyIdQuery(dashboards.ProcessDeleteDashboardRequest, ctx)",
+	"query/favoriteDashboardHandler":      "CallWithMyIdQuery(dashboards.ProcessFavoriteRequest, ctx)",
+	"query/listAllDashboardsHandler":      "CallWithMyIdQuery(dashboards.ProcessListAllItemsRequest, ctx)",
+	"query/createFolderHandler":           "CallWithMyIdQuery(dashboards.ProcessCreateFolderRequest, ctx)",
+	"query/getFolderContentsHandler":      "CallWithMyIdQuery(dashboards.ProcessGetFolderContentsRequest, ctx)",
+	"query/updateFolderHandler":           "CallWithMyIdQuery(dashboards.ProcessUpdateFolderRequest, ctx)",
+	"query/deleteFolderHandler":           "CallWithMyIdQuery(dashboards.ProcessDeleteFolderRequest, ctx)",
+	"query/getFolderNestedCountHandler":   "CallWithMyIdQuery(dashboards.ProcessGetFolderNestedCountRequest, ctx)",
+	"ingest/esPostBulkHandler":            "eswriter.ProcessBulkRequest(ctx, 0, false)",
+	"ingest/EsPutIndexHandler":            "CallWithMyId(eswriter.ProcessPutIndex, ctx)",
+	"ingest/esPutPostSingleDocHandler":    "eswriter.ProcessPutPostSingleDocRequest(ctx, update, 0)",
+	"ingest/splunkHecIngestHandler":       "CallWithMyId(splunk.ProcessSplunkHecIngestRequest, ctx)",
+	"ingest/otsdbPutMetricsHandler":       "CallWithMyId(otsdbwriter.PutMetrics, ctx)",
+	"ingest/prometheusPutMetricsHandler":  "CallWithMyId(prometheuswriter.PutMetrics, ctx)",
 }
 
 func repoDir() string {
